@@ -35,7 +35,10 @@ constrained_evaluator<T, E, P>::constrained_evaluator(E e, P p)
 template<class T, class E, class P>
 fitness_t constrained_evaluator<T, E, P>::operator()(const T &prg)
 {
-  return combine(fitness_t{static_cast<fitness_t::value_type>(-penalty_(prg))},
+  // The penalty is converted before the negation: negating in the penalty's own
+  // type wraps around for unsigned types (a penalty of `3u` would become the
+  // component `+4294967293`) and overflows for the minimum of a signed type.
+  return combine(fitness_t{-static_cast<fitness_t::value_type>(penalty_(prg))},
                  eva_(prg));
 }
 
@@ -46,7 +49,7 @@ fitness_t constrained_evaluator<T, E, P>::operator()(const T &prg)
 template<class T, class E, class P>
 fitness_t constrained_evaluator<T, E, P>::fast(const T &prg)
 {
-  return combine(fitness_t{static_cast<fitness_t::value_type>(-penalty_(prg))},
+  return combine(fitness_t{-static_cast<fitness_t::value_type>(penalty_(prg))},
                  eva_.fast(prg));
 }
 
